@@ -150,9 +150,21 @@ func psOracle(all []uint16, signers []uint16, t int, msgLen int, shares map[uint
 			}
 			wit[id] = w
 		}
+		orderTurn := mi
 		subsets(signers, t, func(sub []uint16) {
 			if problem != "" {
 				return
+			}
+			// the signers reach the prover in the order in which their partial signatures arrived, which need not
+			// be ascending: every third subset is handed over reversed, every third rotated by one
+			sub = append([]uint16(nil), sub...)
+			switch orderTurn++; orderTurn % 3 {
+			case 1:
+				for i, j := 0, len(sub)-1; i < j; i, j = i+1, j-1 {
+					sub[i], sub[j] = sub[j], sub[i]
+				}
+			case 2:
+				sub = append(sub[1:], sub[0])
 			}
 			var ws []ps.SignatureWitness
 			for _, id := range sub {
